@@ -79,7 +79,9 @@ noncomputable def S (y1 y2 : ℝ) : ℝ :=
 
 theorem S_key (y1 y2 : ℝ) :
     (y2 - y1) * (den y1 * den y2) - (num y2 * den y1 - num y1 * den y2) = (y2 - y1) * S y1 y2 := by
-  unfold num den S; ring
+  unfold num den S
+  rw [show (1.0:ℝ) = 1 by norm_num]  -- `ring` mis-handles integral scientific literals
+  ring
 
 /-- the rational part `y ↦ y − N(y)/D(y)` is strictly increasing on `y ≥ 0` -/
 theorem G_strictMonoOn : StrictMonoOn G (Ici 0) := by
@@ -195,7 +197,7 @@ theorem rOf_le_half (p : ℝ) : rOf p ≤ 0.5 ∨ p < 0.5 := by
   · exact Or.inr h
   · left; unfold rOf; split_ifs with h'
     · norm_num at h' ⊢; linarith
-    · push_neg at h h'; linarith
+    · push Not at h h'; linarith
 
 /-- standard quantile is non-decreasing on `(0,1)` -/
 theorem zOf_mono {p1 p2 : ℝ} (h0 : 0 < p1) (h12 : p1 ≤ p2) (h1 : p2 < 1) : zOf p1 ≤ zOf p2 := by
